@@ -586,6 +586,9 @@ static void run_case(Src& s, const char* projname) {
                         model::Ring ring;
                         ring.outer = r == 0;
                         ring.refs = gen_list(s, bad, 4);
+                        // rings that touch the ring stored before them in its start/end node (state that leaks from one ring to
+                        // the next -- duplicate suppression, counters -- shows here)
+                        if (!a.rings.empty() && s.chance(1, 3)) ring.refs.front().loc = a.rings.back().refs.back().loc;
                         if (mercator)
                             for (auto& x : ring.refs)
                                 if (x.loc.valid() && (x.loc.y == 900000000 || x.loc.y == -900000000)) x.loc.y = 777;
